@@ -26,7 +26,7 @@ type gcall struct {
 	key         string
 	off, length int64
 	etag        string
-	release     chan string // serve mode
+	release     chan string   // serve mode
 	release2    chan struct{} // second gate of mode okhold: read now, deliver later
 }
 
@@ -271,13 +271,13 @@ type reqRec struct {
 }
 
 type world struct {
-	g      *gateBucket
-	srv    *pmtiles.Server
-	mu     sync.Mutex
-	reqs   []*reqRec
-	wg     sync.WaitGroup
-	opIdx  int
-	notes  []string
+	g     *gateBucket
+	srv   *pmtiles.Server
+	mu    sync.Mutex
+	reqs  []*reqRec
+	wg    sync.WaitGroup
+	opIdx int
+	notes []string
 }
 
 func newWorld(cacheMB int, gated bool) *world {
